@@ -130,11 +130,12 @@ def decode(b, check_crc=True):
                 raise ContentError("bad hash kind")
             h = {"kind": HK[k], "seed": bytes(r.raw(16))}
             cs["hash" if ch == 'c' else "prevhash"] = h
-        elif ch == 'M':
+        elif ch in 'Mm':
+            # 'm' (SnapRAID 4.x - 6.x): no free space figures
             name = r.bs()
             pos = r.vi(32)
-            tot = r.vi(32)
-            free = r.vi(32)
+            tot = r.vi(32) if ch == 'M' else 0
+            free = r.vi(32) if ch == 'M' else 0
             uuid = r.bs()
             cs["maps"].append({"name": name, "pos": pos, "total": tot, "free": free, "uuid": uuid})
             idx = len(cs["maps"]) - 1
@@ -290,13 +291,19 @@ def _bs(s):
     return _vi(len(s)) + s
 
 
-def encode(cs, info_now=None):
+def encode(cs, info_now=None, legacy=False):
     """Normative encoder (Python transliteration of spec/ContentFormat.tla).
     Files are written per disk in list order: files, links, dirs, then the 'h' record; run-length rules as
-    documented: a block run continues while state is equal and positions are consecutive."""
+    documented: a block run continues while state is equal and positions are consecutive.
+    legacy: the first format (SNAPCNT1 of SnapRAID 4.x - 6.x, still read by the reference): 'm' mapping records without free
+    space, no parity records, blocks that are new in never used positions as 'n' runs without hash (16-byte hashes only)."""
     hs = cs["hash_size"]
     ver = 3 if (hs != 16 or any(len(p["splits"]) > 1 for p in cs["parity"])) else 2
     ver = cs.get("force_version", ver)
+    if legacy:
+        if ver != 2:
+            raise ContentError("the first format has 16-byte hashes and one file per parity level")
+        ver = 1
     o = bytearray(b"SNAPCNT%d\n\x03\x00\x00" % ver)
     o += b'z' + _vi(cs["block_size"]) + b'x' + _vi(cs["blockmax"])
     if ver == 3:
@@ -306,8 +313,11 @@ def encode(cs, info_now=None):
     if cs.get("prevhash") and has_rehash:
         o += b'C' + bytes([HKR[cs["prevhash"]["kind"]]]) + cs["prevhash"]["seed"]
     for m in cs["maps"]:
-        o += b'M' + _bs(m["name"]) + _vi(m["pos"]) + _vi(m["total"]) + _vi(m["free"]) + _bs(m["uuid"])
-    for p in cs["parity"]:
+        if legacy:
+            o += b'm' + _bs(m["name"]) + _vi(m["pos"]) + _bs(m["uuid"])
+        else:
+            o += b'M' + _bs(m["name"]) + _vi(m["pos"]) + _vi(m["total"]) + _vi(m["free"]) + _bs(m["uuid"])
+    for p in ([] if legacy else cs["parity"]):
         if ver == 3:
             o += b'Q' + _vi(p["level"]) + _vi(p["total"]) + _vi(p["free"]) + _vi(len(p["splits"]))
             for s in p["splits"]:
@@ -320,14 +330,17 @@ def encode(cs, info_now=None):
             ns = 0 if f["mtime_nsec"] == NSEC_INVALID else f["mtime_nsec"] + 1
             o += b'f' + _vi(idx) + _vi(f["size"]) + _vi(f["mtime_sec"]) + _vi(ns) + _vi(f["inode"]) + _bs(f["sub"])
             bl = f["blocks"]
+            if legacy:
+                bl = [(q, "NEW" if (st == "NEW" or (st == "CHG" and is_zero_hash(h))) else st, h) for (q, st, h) in bl]
             i = 0
             while i < len(bl):
                 j = i + 1
                 while j < len(bl) and bl[j][1] == bl[i][1] and bl[j][0] == bl[i][0] + (j - i):
                     j += 1
-                o += STR[bl[i][1]] + _vi(bl[i][0]) + _vi(j - i)
-                for k in range(i, j):
-                    o += bl[k][2]
+                o += (b'n' if bl[i][1] == "NEW" else STR[bl[i][1]]) + _vi(bl[i][0]) + _vi(j - i)
+                if bl[i][1] != "NEW":
+                    for k in range(i, j):
+                        o += bl[k][2]
                 i = j
         for l in d["links"]:
             o += (b'a' if l["kind"] == "hard" else b's') + _vi(idx) + _bs(l["sub"]) + _bs(l["linkto"])
